@@ -215,7 +215,8 @@ def run_task(task):
         cexs0 = []
     if not variants:
         return dict(paths=0, requires=0, cex=[], samples=[{'task': task['name'], 'note': 'declined under every option set', 'reasons': declined[:2]}], witness={}, notes=['declined: %s' % declined[0][1] if declined else ''], extra={'programs_declined': 1})
-    eng = explore(run, setup, W=112, bl_max=104, max_paths=3000)
+    W = 112 if ('FP64' in p['src'] or 'D_RT' in p['src'] or 'FP64' in p.get('ctx', 'fp.FP64')) else 64       # binary64 significands need the wide vectors
+    eng = explore(run, setup, W=W, bl_max=W - 8, max_paths=3000)
     for k, v in wit.items():
         eng.witness[k] = eng.witness.get(k, 0) + v
     cexs = list(cexs0)
@@ -302,7 +303,7 @@ def describe(tier):
                    'backend.cpp.storage / storage_infer / unbox / target / ops', 'interpret.byte on the same program (symbolic arguments)'],
         files=[R + 'backend/cpp/compiler.py', R + 'backend/cpp/emitter.py', R + 'backend/cpp/storage.py', R + 'backend/cpp/storage_infer.py', R + 'backend/cpp/unbox.py', R + 'backend/cpp/target.py', R + 'backend/cpp/ops.py', R + 'backend/cpp/types.py',
                R + 'backend/cpp/utils.py', R + 'transform/specialize.py', R + 'transform/round_elim.py', R + 'interpret/byte.py'],
-        bounds=dict(programs=len(corpus_cpp.P), option_sets=len(OPTIONS), argument_significand_bits=CW[tier], argument_exponent=tv.EXP0, list_lengths='as listed per program', loop_trip_limit=200, engine_width=112),
+        bounds=dict(programs=len(corpus_cpp.P), option_sets=len(OPTIONS), argument_significand_bits=CW[tier], argument_exponent=tv.EXP0, list_lengths='as listed per program', loop_trip_limit=200, engine_width='112 for programs with binary64, 64 for binary32-only programs'),
         outside=['that g++ / clang and the C library implement IEEE 754 operations, conversions and <cfenv> as the standard says (the property\'s premise); compiler optimisation levels',
                  'emitted code outside the evaluator\'s subset (std::shared_ptr handles, std::array, std::tuple of lists, division, sqrt, elementary functions): reported per variant in the evidence, never counted as agreement',
                  'programs outside the corpus; symbolic special operands (concrete table only)', 'calls between separately compiled translation units'],
